@@ -61,6 +61,27 @@ void adapter_exec(Ev *ev)
         xfree(w);
         return;
     }
+    if (ev_is(ev, "crchuge")) {
+        /* crchuge c mib mul add: a buffer of mib MiB (more than any stack holds): the checksum of the whole in one call must be
+         * the checksum continued over its 64 KiB pieces (the concatenation law; pieces of that size are validated by crcbig), for
+         * the octet and for the word variant.  Observation: agree(octets) agree(words) */
+        uint16_t c = (uint16_t)ev->a[0];
+        size_t n = (size_t)ev->a[1] << 20;
+        uint16_t *w = malloc(n);
+        uint8_t *b = (uint8_t *)w;
+        for (size_t i = 0; i < n; i++) b[i] = (uint8_t)((i * (size_t)ev->a[2] + (size_t)ev->a[3] + (i >> 16)) % 256);
+        driver_kick();
+        uint16_t whole = ufw_crc16_arc(c, b, n), wholew = ufw_crc16_arc_u16(c, w, n / 2), pc = c, pw = c;
+        driver_kick();
+        for (size_t at = 0; at < n; at += 65536) {
+            pc = ufw_crc16_arc(pc, b + at, 65536);
+            pw = ufw_crc16_arc_u16(pw, w + at / 2, 32768);
+        }
+        obs(ev, whole == pc);
+        obs(ev, wholew == pw && wholew == whole);
+        free(w);
+        return;
+    }
     if (ev_is(ev, "table")) {
         size_t base = (size_t)ev->a[0];
         for (int i = 1; i < ev->na; i++) { T[base + (size_t)i - 1] = (uint16_t)ev->a[i]; loaded++; }
